@@ -159,7 +159,7 @@ class CompoundQuery(qcore.Query):
                         j += 1
                 q = subqueries[i] = q.normalize()
 
-            if isinstance(q, Every):
+            if isinstance(q, Every) and q.fieldname is not None:
                 everyfields.add(q.fieldname)
             i += 1
 
